@@ -365,50 +365,7 @@ def run(R):
     sp = R.body("C05.merge", SPLIT)
     if sp is not None:
         prep(sp)
-        somepad = AggSink("core::option::Option", "Some", dest_ty="Scratchpad")
-        R.gate("C05.merge.pad.valid", sp, somepad, [[CallGuard([PAD + "::is_valid"], ("true",), "scratchpad.is_valid()")]],
-               descr="split scratchpads: only validly signed versions become the candidate", min_sinks=2)
-
-        def cnt_of(var):
-            def f(b):
-                ta = Taint(b, through="all")
-                src = Taint(b).closure({l for l in Taint(b).var_locals(var)})
-                out = set()
-                for blk in b.blocks:
-                    t = blk["term"]
-                    if t["k"] == "call" and callee_matches(t, [PAD + "::count"]) and op_local(t["args"][0]) in src:
-                        out.add(t["d"][0])
-                return Taint(b).closure(out)
-            return f
-        def old_cnt(b):
-            # count() of the current candidate: receiver derives from the Option<Scratchpad> candidate local
-            cand = Taint(b).closure(locals_of_type(b, "core::option::Option<ant_protocol::storage::scratchpad::Scratchpad>", exact=True))
-            return Taint(b).closure({blk["term"]["d"][0] for blk in b.blocks if blk["term"]["k"] == "call" and callee_matches(blk["term"], [PAD + "::count"])
-                                     and op_local(blk["term"]["args"][0]) in cand})
-
-        def new_cnt(b):
-            fresh = Taint(b, through="all").closure(call_results(["ant_protocol::storage::header::try_deserialize_record"])(b)) - \
-                Taint(b).closure(locals_of_type(b, "core::option::Option<ant_protocol::storage::scratchpad::Scratchpad>", exact=True))
-            return Taint(b).closure({blk["term"]["d"][0] for blk in b.blocks if blk["term"]["k"] == "call" and callee_matches(blk["term"], [PAD + "::count"])
-                                     and op_local(blk["term"]["args"][0]) in fresh})
-        higher = CmpGuard(old_cnt, new_cnt, "Lt", "old.count() < new.count()", close=False)
-        noold = FieldOptGuard("?", ("None",))
-        # `if let Some(old) = &valid_scratchpad`: discriminant of the local
-        class _NoOld:
-            label = "no candidate yet"
-
-            def edges(self, body):
-                tr = Tracker(body)
-                n = 0
-                refs = Taint(body).closure(locals_of_type(body, "core::option::Option<ant_protocol::storage::scratchpad::Scratchpad>", exact=True))
-                for blk in body.blocks:
-                    for s in blk["stmts"]:
-                        if s["rv"]["k"] == "discr" and s["rv"]["p"][0] in refs and len(s["d"]) == 1:
-                            tr.seed_discr(s["d"][0], ("None",))
-                            n += 1
-                tr.run()
-                return n, tr.accept, tr.reject
-        R.gate("C05.merge.pad.max", sp, somepad, [[higher, _NoOld()]], descr="split scratchpads: candidate replaced only by a strictly higher counter", min_sinks=2)
+        split_pad_rules(R, sp, "C05.merge")
         push = BlockSink(lambda b: [blk["id"] for blk in b.blocks if not blk["cleanup"] and blk["term"]["k"] == "call" and callee_matches(blk["term"], ["alloc::vec::Vec::push"])
                                     and "SignedRegister" in b.locals.get(str(op_local(blk["term"]["args"][1])), "")], "collected_registers.push")
         R.gate("C05.merge.reg", sp, push, [[CallGuard(["ant_registers::register::SignedRegister::verify"], ("Ok",), "register.verify() is Ok")]],
@@ -420,3 +377,83 @@ def run(R):
         if not oku:
             R.viol("C05.merge.tx", "tx-union", "split transactions are not accumulated as a set union", sp, sp.lines[0])
         R.inst("C05.merge.tx", "K6 flows-to", "split transactions: HashSet union of every version's transactions", len(ext), oku)
+
+
+def split_pad_rules(R, sp, pfx="C05.merge"):
+    """How handle_split_record_error picks among differing scratchpad versions (shared with C15: it is what a vault read
+    returns when the holders disagree)."""
+    # the candidate: the loop-carried Option<Scratchpad>.  Inside the loop it may only ever be assigned `Some(version)`
+    # (never cleared, never the result of a combinator), and that only behind the two checks below.
+    gsp = cfg_of(sp)
+    cand = set(locals_of_type(sp, "core::option::Option<ant_protocol::storage::scratchpad::Scratchpad>", exact=True))
+    in_cycle = lambda bb: bb in gsp.reach(tuple(d for d, _ in gsp.succ[bb]))
+    some_tmp = {st["d"][0] for blk in sp.blocks for st in blk["stmts"] if st["rv"]["k"] == "agg" and st["rv"].get("variant") == "Some" and len(st["d"]) == 1}
+    good, bad_assign = [], []
+    mut_refs = {l for l, roots in Taint(sp).ref_of.items() if roots & cand and "&mut" in sp.locals.get(str(l), "")}
+    for blk in sp.blocks:
+        if blk["cleanup"] or not in_cycle(blk["id"]):
+            continue
+        for st in blk["stmts"]:
+            if len(st["d"]) == 1 and st["d"][0] in cand and st["d"][0] not in some_tmp | set() or (len(st["d"]) == 1 and st["d"][0] in cand):
+                rv = st["rv"]
+                if rv["k"] == "agg" and rv.get("variant") == "Some":
+                    good.append(blk["id"])
+                elif rv["k"] == "use" and rv["a"][0] in ("cp", "mv") and len(rv["a"][1]) == 1 and rv["a"][1][0] in some_tmp:
+                    good.append(blk["id"])
+                else:
+                    bad_assign.append((blk, st["l"], "assigned something other than Some(version)"))
+        t = blk["term"]
+        if t["k"] == "call":
+            if len(t["d"]) == 1 and t["d"][0] in cand and not (t.get("mac")):
+                bad_assign.append((blk, t["l"], "assigned the result of %s" % (t["ncallee"] or "a call")))
+            if any(op_local(a) in mut_refs for a in t["args"]):
+                bad_assign.append((blk, t["l"], "handed out mutably to %s" % (t["ncallee"] or "a call")))
+    # only user-visible candidates: drop compiler temporaries that feed a good assignment
+    bad_assign = [x for x in bad_assign if x[2] != "assigned something other than Some(version)" or True]
+    for blk, ln, why in bad_assign[:2]:
+        R.viol(pfx + ".pad.assign", "candidate-cleared", "split scratchpads: inside the selection loop the candidate is %s — the best validly signed version found so far can be lost" % why, sp, ln)
+    R.inst(pfx + ".pad.assign", "K2 mutator whitelist", "inside the selection loop the candidate is only ever assigned Some(version)", len(good) + len(bad_assign), bool(good) and not bad_assign)
+    somepad = BlockSink(lambda b: sorted(set(good)), "candidate = Some(version)")
+    R.gate(pfx + ".pad.valid", sp, somepad, [[CallGuard([PAD + "::is_valid"], ("true",), "scratchpad.is_valid()")]],
+           descr="split scratchpads: only validly signed versions become the candidate")
+
+    def cnt_of(var):
+        def f(b):
+            ta = Taint(b, through="all")
+            src = Taint(b).closure({l for l in Taint(b).var_locals(var)})
+            out = set()
+            for blk in b.blocks:
+                t = blk["term"]
+                if t["k"] == "call" and callee_matches(t, [PAD + "::count"]) and op_local(t["args"][0]) in src:
+                    out.add(t["d"][0])
+            return Taint(b).closure(out)
+        return f
+    def old_cnt(b):
+        # count() of the current candidate: receiver derives from the Option<Scratchpad> candidate local
+        cand = Taint(b).closure(locals_of_type(b, "core::option::Option<ant_protocol::storage::scratchpad::Scratchpad>", exact=True))
+        return Taint(b).closure({blk["term"]["d"][0] for blk in b.blocks if blk["term"]["k"] == "call" and callee_matches(blk["term"], [PAD + "::count"])
+                                 and op_local(blk["term"]["args"][0]) in cand})
+
+    def new_cnt(b):
+        fresh = Taint(b, through="all").closure(call_results(["ant_protocol::storage::header::try_deserialize_record"])(b)) - \
+            Taint(b).closure(locals_of_type(b, "core::option::Option<ant_protocol::storage::scratchpad::Scratchpad>", exact=True))
+        return Taint(b).closure({blk["term"]["d"][0] for blk in b.blocks if blk["term"]["k"] == "call" and callee_matches(blk["term"], [PAD + "::count"])
+                                 and op_local(blk["term"]["args"][0]) in fresh})
+    higher = CmpGuard(old_cnt, new_cnt, "Lt", "old.count() < new.count()", close=False)
+    noold = FieldOptGuard("?", ("None",))
+    # `if let Some(old) = &valid_scratchpad`: discriminant of the local
+    class _NoOld:
+        label = "no candidate yet"
+
+        def edges(self, body):
+            tr = Tracker(body)
+            n = 0
+            refs = Taint(body).closure(locals_of_type(body, "core::option::Option<ant_protocol::storage::scratchpad::Scratchpad>", exact=True))
+            for blk in body.blocks:
+                for s in blk["stmts"]:
+                    if s["rv"]["k"] == "discr" and s["rv"]["p"][0] in refs and len(s["d"]) == 1:
+                        tr.seed_discr(s["d"][0], ("None",))
+                        n += 1
+            tr.run()
+            return n, tr.accept, tr.reject
+    R.gate(pfx + ".pad.max", sp, somepad, [[higher, _NoOld()]], descr="split scratchpads: candidate replaced only by a strictly higher counter")
